@@ -4,9 +4,11 @@ import (
 	"fmt"
 	"go/token"
 	"go/types"
+	"sort"
 
 	"golang.org/x/tools/go/ssa"
 
+	"dcmcheck/internal/load"
 	"dcmcheck/internal/report"
 )
 
@@ -67,80 +69,300 @@ func sliceWithAllocCalls(v ssa.Value) map[ssa.Value]bool {
 	return seen
 }
 
+// frameGet / frameAdd: a point in a function where one frame is fetched from / appended to a
+// PixelData — the invoke itself, or a call of a helper that does exactly that with its parameters
+// (the obligation is then lifted to the call site, values mapped to the caller's).
+type frameGet struct {
+	site    ssa.CallInstruction
+	fn      *ssa.Function
+	idx, pd ssa.Value
+	val     ssa.Value
+	via     string
+}
+
+type frameAdd struct {
+	site     ssa.CallInstruction
+	fn       *ssa.Function
+	pd, data ssa.Value
+	errVal   ssa.Value
+	via      string
+}
+
+func paramIndex(fn *ssa.Function, v ssa.Value) int {
+	for i, p := range fn.Params {
+		if ssa.Value(p) == v {
+			return i
+		}
+	}
+	return -1
+}
+
+// countedLoop: does loop l visit idx = 0, 1, ..., n-1 in this order, one value per iteration?
+// Two shapes: the classic `for i := 0; i < n; i++` (test in the header) and the rotated form go/ssa
+// emits for `for i := range n` (entry guarded by 0 < n, i+1 < n tested in the latch). Returns the
+// bound n and the blocks whose exit edge is the regular end of the loop.
+func countedLoop(l *natLoop, idx ssa.Value) (bound ssa.Value, regular map[*ssa.BasicBlock]bool, why string) {
+	phi, ok := idx.(*ssa.Phi)
+	if !ok || phi.Block() != l.Header {
+		return nil, nil, "the GetFrame argument is not the loop's induction variable (a phi at the loop header)"
+	}
+	var inc *ssa.BinOp
+	for i, ed := range phi.Edges {
+		pred := l.Header.Preds[i]
+		if l.Blocks[pred] {
+			bo, ok := ed.(*ssa.BinOp)
+			if !ok || bo.Op != token.ADD || bo.X != phi || !isConstInt(bo.Y, 1) {
+				return nil, nil, "the frame index does not start at 0 and step by exactly 1 on every iteration"
+			}
+			if inc != nil && inc != bo {
+				return nil, nil, "the frame index does not start at 0 and step by exactly 1 on every iteration"
+			}
+			inc = bo
+		} else if !isConstInt(ed, 0) {
+			return nil, nil, "the frame index does not start at 0 and step by exactly 1 on every iteration"
+		}
+	}
+	if inc == nil {
+		return nil, nil, "the frame index does not start at 0 and step by exactly 1 on every iteration"
+	}
+	notForm := "the loop is not of the form `for i := 0; i < n; i++` (or `for i := range n`) with the exit on the false edge of the test"
+	// classic form
+	if bo, _ := ifCond(l.Header).(*ssa.BinOp); bo != nil && len(l.Header.Succs) == 2 && (bo.X == ssa.Value(phi) || bo.Y == ssa.Value(phi)) {
+		if bo.Op != token.LSS || bo.X != phi || l.Blocks[l.Header.Succs[1]] {
+			return nil, nil, notForm
+		}
+		return bo.Y, map[*ssa.BasicBlock]bool{l.Header: true}, ""
+	}
+	// rotated form: every latch tests i+1 < n and only its true edge returns to the header; every
+	// entry from outside is the true edge of 0 < n
+	regular = map[*ssa.BasicBlock]bool{}
+	for _, pred := range l.Header.Preds {
+		bo, _ := ifCond(pred).(*ssa.BinOp)
+		if bo == nil || len(pred.Succs) != 2 || bo.Op != token.LSS || pred.Succs[0] != l.Header {
+			return nil, nil, notForm
+		}
+		if l.Blocks[pred] {
+			if bo.X != ssa.Value(inc) || l.Blocks[pred.Succs[1]] {
+				return nil, nil, notForm
+			}
+			regular[pred] = true
+		} else if !isConstInt(bo.X, 0) {
+			return nil, nil, notForm
+		}
+		if bound == nil {
+			bound = bo.Y
+		} else if bound != bo.Y {
+			return nil, nil, notForm
+		}
+	}
+	if bound == nil || len(regular) == 0 {
+		return nil, nil, notForm
+	}
+	return bound, regular, ""
+}
+
 // orderFramesRule implements ORDER-FRAMES (DESIGN C10 rule 1).
 func (c *Ctx) orderFramesRule(e *Eff) int {
 	nLoops := 0
-	for _, fn := range c.scopeFuncs() {
+	scope := c.scopeFuncs()
+	gets := map[*ssa.Function][]frameGet{}
+	adds := map[*ssa.Function][]frameAdd{}
+	for _, fn := range scope {
 		if !e.ReachCodec[fn] {
 			continue
 		}
-		var gets, adds []ssa.CallInstruction
 		for _, b := range fn.Blocks {
 			for _, ins := range b.Instrs {
 				if call, m := pixelDataCall(ins); call != nil {
 					switch m {
 					case "GetFrame":
-						gets = append(gets, call)
+						gets[fn] = append(gets[fn], frameGet{site: call, fn: fn, idx: call.Common().Args[0], pd: call.Common().Value, val: call.Value()})
 					case "AddFrame":
-						adds = append(adds, call)
+						adds[fn] = append(adds[fn], frameAdd{site: call, fn: fn, pd: call.Common().Value, data: call.Common().Args[0], errVal: call.Value()})
 					}
 				}
 			}
 		}
-		if len(gets) == 0 && len(adds) == 0 {
-			continue
+	}
+	callersOf := func(callee *ssa.Function) []ssa.CallInstruction {
+		var out []ssa.CallInstruction
+		for _, fn := range scope {
+			if !e.ReachCodec[fn] {
+				continue
+			}
+			for _, b := range fn.Blocks {
+				for _, ins := range b.Instrs {
+					if call, ok := ins.(ssa.CallInstruction); ok && call.Common().StaticCallee() == callee {
+						if _, isGo := ins.(*ssa.Go); !isGo {
+							if _, isDefer := ins.(*ssa.Defer); !isDefer {
+								out = append(out, call)
+							}
+						}
+					}
+				}
+			}
 		}
+		return out
+	}
+	isCodecMethod := map[*ssa.Function]bool{}
+	for _, f := range e.EP.Codec {
+		isCodecMethod[f] = true
+	}
+	// lifting: a helper that fetches (appends) exactly one frame named by its own parameters stands
+	// for that operation at each of its call sites. Up to three levels.
+	lifted := map[ssa.CallInstruction]bool{}
+	for round := 0; round < 3; round++ {
+		var fns []*ssa.Function
+		for fn := range gets {
+			fns = append(fns, fn)
+		}
+		for fn := range adds {
+			if _, dup := gets[fn]; !dup {
+				fns = append(fns, fn)
+			}
+		}
+		sort.Slice(fns, func(i, j int) bool { return fns[i].String() < fns[j].String() })
+		for _, fn := range fns {
+			if isCodecMethod[fn] {
+				continue
+			}
+			loops := naturalLoops(fn)
+			var keepG []frameGet
+			for _, g := range gets[fn] {
+				pi, pj := paramIndex(fn, g.idx), paramIndex(fn, g.pd)
+				if innermostLoopOf(loops, g.site.Block()) != nil || pi < 0 || pj < 0 || lifted[g.site] || len(adds[fn]) > 0 {
+					keepG = append(keepG, g)
+					continue
+				}
+				// some result must carry the frame on every successful return
+				res := -1
+				for k := 0; k < fn.Signature.Results().Len() && res < 0; k++ {
+					all, any := true, false
+					for _, b := range fn.Blocks {
+						if len(b.Instrs) == 0 {
+							continue
+						}
+						ret, ok := b.Instrs[len(b.Instrs)-1].(*ssa.Return)
+						if !ok {
+							continue
+						}
+						if ei := errorResultIndex(fn); ei >= 0 && !isNilConst(ret.Results[ei]) {
+							continue
+						}
+						any = true
+						if !sliceWithAllocCalls(ret.Results[k])[g.val] {
+							all = false
+						}
+					}
+					if all && any {
+						res = k
+					}
+				}
+				sites := callersOf(fn)
+				if res < 0 || len(sites) == 0 {
+					keepG = append(keepG, g)
+					continue
+				}
+				lifted[g.site] = true
+				nLoops++
+				c.add("ORDER-FRAMES", fn, "frame fetch helper around "+addrExpr(g.pd)+".GetFrame", report.Discharged, c.P.Pos(g.site.Pos()),
+					fmt.Sprintf("fetches the frame named by its parameters and returns it: the loop obligations are checked at its %d call site(s)", len(sites)))
+				for _, cs := range sites {
+					caller := cs.Parent()
+					args := cs.Common().Args
+					if pi >= len(args) || pj >= len(args) || cs.Value() == nil {
+						continue
+					}
+					gets[caller] = append(gets[caller], frameGet{site: cs, fn: caller, idx: args[pi], pd: args[pj], val: cs.Value(), via: load.FuncName(fn)})
+				}
+			}
+			if len(keepG) == 0 {
+				delete(gets, fn)
+			} else {
+				gets[fn] = keepG
+			}
+			var keepA []frameAdd
+			for _, a := range adds[fn] {
+				pj := paramIndex(fn, a.pd)
+				pk := -1
+				for v := range backwardSlice(a.data, 400) {
+					if k := paramIndex(fn, v); k >= 0 && isByteSlice(fn.Params[k].Type()) {
+						pk = k
+					}
+				}
+				ei := errorResultIndex(fn)
+				if innermostLoopOf(loops, a.site.Block()) != nil || pj < 0 || pk < 0 || ei < 0 || lifted[a.site] || len(gets[fn]) > 0 ||
+					a.errVal == nil || a.errVal.Referrers() == nil || len(*a.errVal.Referrers()) == 0 {
+					keepA = append(keepA, a)
+					continue
+				}
+				sites := callersOf(fn)
+				if len(sites) == 0 {
+					keepA = append(keepA, a)
+					continue
+				}
+				lifted[a.site] = true
+				for _, cs := range sites {
+					caller := cs.Parent()
+					args := cs.Common().Args
+					if pj >= len(args) || pk >= len(args) {
+						continue
+					}
+					adds[caller] = append(adds[caller], frameAdd{site: cs, fn: caller, pd: args[pj], data: args[pk], errVal: cs.Value(), via: load.FuncName(fn)})
+				}
+			}
+			if len(keepA) == 0 {
+				delete(adds, fn)
+			} else {
+				adds[fn] = keepA
+			}
+		}
+	}
+	var fns []*ssa.Function
+	seenFn := map[*ssa.Function]bool{}
+	for fn := range gets {
+		fns, seenFn[fn] = append(fns, fn), true
+	}
+	for fn := range adds {
+		if !seenFn[fn] {
+			fns = append(fns, fn)
+		}
+	}
+	sort.Slice(fns, func(i, j int) bool { return fns[i].String() < fns[j].String() })
+	loopFns := map[*ssa.Function]bool{}
+	for _, fn := range fns {
 		loops := naturalLoops(fn)
 		usedAdds := map[ssa.CallInstruction]bool{}
-		for _, get := range gets {
+		for _, get := range gets[fn] {
 			nLoops++
-			construct := "frame loop around " + addrExpr(get.Common().Value) + ".GetFrame"
-			fail := func(why string) {
-				c.add("ORDER-FRAMES", fn, construct, report.Violated, c.P.Pos(get.Pos()), why)
+			loopFns[fn] = true
+			what := ".GetFrame"
+			if get.via != "" {
+				what = " via " + get.via
 			}
-			l := innermostLoopOf(loops, get.Block())
+			construct := "frame loop around " + addrExpr(get.pd) + what
+			fail := func(why string) {
+				c.add("ORDER-FRAMES", fn, construct, report.Violated, c.P.Pos(get.site.Pos()), why)
+			}
+			l := innermostLoopOf(loops, get.site.Block())
 			if l == nil {
 				fail("GetFrame is not inside a loop: only one frame can be processed")
 				continue
 			}
-			// (a) induction variable
-			idx := get.Common().Args[0]
-			phi, ok := idx.(*ssa.Phi)
-			if !ok || phi.Block() != l.Header {
-				fail("the GetFrame argument is not the loop's induction variable (a phi at the loop header)")
-				continue
-			}
-			okInd := true
-			for i, ed := range phi.Edges {
-				pred := l.Header.Preds[i]
-				if l.Blocks[pred] {
-					bo, ok := ed.(*ssa.BinOp)
-					if !ok || bo.Op != token.ADD || bo.X != phi || !isConstInt(bo.Y, 1) {
-						okInd = false
-					}
-				} else if !isConstInt(ed, 0) {
-					okInd = false
-				}
-			}
-			if !okInd {
-				fail("the frame index does not start at 0 and step by exactly 1 on every iteration")
-				continue
-			}
-			// (b) bound is FrameCount() of the same PixelData, unmodified
-			cond := ifCond(l.Header)
-			bo, _ := cond.(*ssa.BinOp)
-			if bo == nil || bo.Op != token.LSS || bo.X != phi || l.Blocks[l.Header.Succs[1]] {
-				fail("the loop is not of the form `for i := 0; i < n; i++` with the exit on the false edge of the header test")
+			// (a) induction variable, (b) bound
+			bound, regular, why := countedLoop(l, get.idx)
+			if why != "" {
+				fail(why)
 				continue
 			}
 			boundOK, arith := false, false
-			for v := range backwardSlice(bo.Y, 200) {
+			for v := range backwardSlice(bound, 200) {
 				if call, ok := v.(*ssa.Call); ok {
-					if cc := call.Common(); cc.IsInvoke() && cc.Method.Name() == "FrameCount" && sameBase(cc.Value, get.Common().Value) {
+					if cc := call.Common(); cc.IsInvoke() && cc.Method.Name() == "FrameCount" && sameBase(cc.Value, get.pd) {
 						boundOK = true
 					}
 				}
-				if b2, ok := v.(*ssa.BinOp); ok && b2 != bo {
+				if _, ok := v.(*ssa.BinOp); ok {
 					arith = true
 				}
 			}
@@ -149,9 +371,9 @@ func (c *Ctx) orderFramesRule(e *Eff) int {
 				continue
 			}
 			// (c) exactly one AddFrame per cycle, fed by this iteration's frame
-			var inLoop []ssa.CallInstruction
-			for _, ad := range adds {
-				if l.Blocks[ad.Block()] {
+			var inLoop []frameAdd
+			for _, ad := range adds[fn] {
+				if l.Blocks[ad.site.Block()] {
 					inLoop = append(inLoop, ad)
 				}
 			}
@@ -160,18 +382,18 @@ func (c *Ctx) orderFramesRule(e *Eff) int {
 				continue
 			}
 			add := inLoop[0]
-			usedAdds[add] = true
-			if sameBase(add.Common().Value, get.Common().Value) {
+			usedAdds[add.site] = true
+			if sameBase(add.pd, get.pd) {
 				fail("AddFrame is called on the PixelData the frames are read from")
 				continue
 			}
-			if !get.Block().Dominates(add.Block()) {
+			if !instrDominates(get.site, add.site) {
 				fail("GetFrame does not dominate AddFrame within the iteration")
 				continue
 			}
 			domAll := true
 			for _, la := range l.Latches {
-				if !add.Block().Dominates(la) {
+				if !add.site.Block().Dominates(la) {
 					domAll = false
 				}
 			}
@@ -179,23 +401,16 @@ func (c *Ctx) orderFramesRule(e *Eff) int {
 				fail("some path through the loop body returns to the header without calling AddFrame (a frame can be skipped without an error)")
 				continue
 			}
-			if il := innermostLoopOf(loops, add.Block()); il != l {
+			if il := innermostLoopOf(loops, add.site.Block()); il != l {
 				fail("AddFrame sits in a nested loop: more than one output frame per input frame is possible")
 				continue
 			}
-			dep := false
-			getVal := get.Value()
-			for v := range sliceWithAllocCalls(add.Common().Args[0]) {
-				if v == ssa.Value(getVal) {
-					dep = true
-				}
-			}
-			if !dep {
+			if !sliceWithAllocCalls(add.data)[get.val] {
 				fail("the frame passed to AddFrame is not data-dependent on this iteration's GetFrame result")
 				continue
 			}
 			// AddFrame's error must be looked at
-			if av := add.Value(); av == nil || av.Referrers() == nil || len(*av.Referrers()) == 0 {
+			if av := add.errVal; av == nil || av.Referrers() == nil || len(*av.Referrers()) == 0 {
 				fail("the error returned by AddFrame is discarded")
 				continue
 			}
@@ -203,7 +418,7 @@ func (c *Ctx) orderFramesRule(e *Eff) int {
 			ei := errorResultIndex(fn)
 			badExit := ""
 			for _, ex := range l.exitEdges() {
-				if ex[0] == l.Header {
+				if regular[ex[0]] {
 					continue
 				}
 				for _, r := range returnsReachable(ex[1], l.Blocks) {
@@ -216,15 +431,33 @@ func (c *Ctx) orderFramesRule(e *Eff) int {
 				fail("the loop can be left early (" + badExit + ") with a nil error: later frames are silently dropped")
 				continue
 			}
-			c.add("ORDER-FRAMES", fn, construct, report.Discharged, c.P.Pos(get.Pos()), "counted loop 0..FrameCount()-1, one dominating AddFrame per cycle fed by the iteration's frame, early exits return errors")
+			c.add("ORDER-FRAMES", fn, construct, report.Discharged, c.P.Pos(get.site.Pos()), "counted loop 0..FrameCount()-1, one dominating AddFrame per cycle fed by the iteration's frame, early exits return errors")
 		}
-		for _, ad := range adds {
-			if !usedAdds[ad] {
-				c.add("ORDER-FRAMES", fn, "AddFrame outside a frame loop", report.Violated, c.P.Pos(ad.Pos()), "AddFrame is not paired with a GetFrame of the same iteration")
+		for _, ad := range adds[fn] {
+			if !usedAdds[ad.site] {
+				c.add("ORDER-FRAMES", fn, "AddFrame outside a frame loop", report.Violated, c.P.Pos(ad.site.Pos()), "AddFrame is not paired with a GetFrame of the same iteration")
 			}
 		}
 	}
-	c.C.Floor("ORDER-FRAMES", nLoops-c.controlCount("ORDER-FRAMES"), 20)
+	// coverage: every registered codec's Encode and Decode must reach a frame loop that was examined
+	missing := 0
+	for _, ep := range append(append([]*ssa.Function{}, e.EP.CodecEnc...), e.EP.CodecDec...) {
+		if ep.Pkg != nil && load.IsControl(ep.Pkg.Pkg.Path()) {
+			continue
+		}
+		found := false
+		for fn := range c.P.Reachable([]*ssa.Function{ep}) {
+			if loopFns[fn] {
+				found = true
+				break
+			}
+		}
+		if !found {
+			missing++
+			c.C.Fatalf("ORDER-FRAMES: %s reaches no frame loop (GetFrame/AddFrame pairing not found): the rule would pass vacuously for this codec", load.FuncName(ep))
+		}
+	}
+	c.C.Floor("ORDER-FRAMES", nLoops-c.controlCount("ORDER-FRAMES"), 8)
 	c.C.ExpectControl("ORDER-FRAMES")
 	return nLoops
 }
